@@ -113,4 +113,8 @@ example : identLike "base".toList ∧ identLike "Msg".toList ∧ stopsIdent ">".
 example : matchAnnot (.strct "Msg" 0) .strct "base.Msg>".toList =
     matchAnnot (.strct "Msg" 0) .strct "Msg>".toList := by decide
 
+/-- the hand-written model of the resolver functions (`DoResolveFields`, `lookupStructTag`, `trimSpaces`, `doParseType`, `doParseSlice`, `doMatchStruct`, `readToken`, `newStructDesc`, `fromDefsField`) was written from, and validated against, code with exactly this
+    control structure (guards, switches, loops, returns, call sequence): regenerated fingerprint =
+    committed fingerprint of the unchanged tree -/
+theorem model_written_from_this_code : Generated.facts.resolverSkeleton = Skeleton.resolver := Instances.skeleton_resolver
 end Frugal.C12
